@@ -282,8 +282,22 @@ func (ctl *Control) worker() {
 	<-ctl.msgDispatcher.Done()
 	ctl.closeSession()
 
+	// The dispatcher's send loop has exited together with its read loop, but closing the proxies
+	// still queues one CloseProxy per proxy on the send channel. Discard what is queued: otherwise,
+	// once the channel is full, Close blocks forever and the client never logs in again.
+	drainDone := make(chan struct{})
+	go func() {
+		for {
+			select {
+			case <-ctl.msgDispatcher.SendChannel():
+			case <-drainDone:
+				return
+			}
+		}
+	}()
 	ctl.pm.Close()
 	ctl.vm.Close()
+	close(drainDone)
 	close(ctl.doneCh)
 }
 
